@@ -45,7 +45,10 @@ TReturn == /\ Ev("Return") /\ out.set /\ Trace[l].t = out.t * Unit /\ Consume /\
            /\ (~out.ok => (out.err = "canceled" <=> Trace[l].err.canceled))
 Silent == (Top \/ PollStep \/ Store \/ WaitDelay \/ WindowFire \/ ExtCancel \/ Advance) /\ UNCHANGED l
 
-TNext == TSend \/ TDue \/ TGot \/ TDeadline \/ TCancel \/ TReturn \/ Reset \/ Silent
+\* a scripted reply that becomes readable at the very instant the run has ended (the driver's timers are stopped only after
+\* the engine has returned): nothing reads it any more
+TDueLate == Ev("Due") /\ out.set /\ Consume /\ UNCHANGED vars
+TNext == TSend \/ TDue \/ TDueLate \/ TGot \/ TDeadline \/ TCancel \/ TReturn \/ Reset \/ Silent
 TSpec == TInit /\ [][TNext]_tvars
 HighWater == TLCSet(1, IF TLCGet(1) > l THEN TLCGet(1) ELSE l)
 ASSUME TLCSet(1, 0)
